@@ -247,7 +247,7 @@ def constant_strain(ctx, lib, kelvin_want):
 def run(ctx):
     from ..shared import group_loop_leak_rule as _group_loop_leak_rule
 
-    _group_loop_leak_rule(ctx, "R1.9", scope=lambda f, _s=("EasyFEA.Simulations",): f.module.name.startswith(_s), min_instances=8)
+    ctx.attempt(_group_loop_leak_rule, ctx, "R1.9", scope=lambda f, _s=("EasyFEA.Simulations",): f.module.name.startswith(_s), min_instances=8)
     ctx.level = "proof"
     ctx.explanation = (
         "Patch-test decomposition (Irons / Strang-Fix): completeness and true gradients of every basis (polynomial identities), exact quadrature "
